@@ -321,24 +321,27 @@ def _format(format_str, *args, **kwargs):
     return _ASCII2_FORMATTER.format(format_str, *args, **kwargs)
 
 
+# Note: The patterns end with '\Z' and not with '$', because '$' also matches
+# before a trailing newline.
+
 # Pattern for DSP0004 binaryValue; group(1) is value without trailing B
 BINARY_VALUE = re.compile(
-    r'^([+\-]?(?:[0-1]+))B$',
+    r'^([+\-]?(?:[0-1]+))B\Z',
     flags=(re.UNICODE | re.IGNORECASE))
 
 # Pattern for DSP0004 octalValue
 OCTAL_VALUE = re.compile(
-    r'^[+\-]?0(?:[1-7]*)$',
+    r'^[+\-]?0(?:[1-7]*)\Z',
     flags=(re.UNICODE))
 
 # Pattern for DSP0004 decimalValue
 DECIMAL_VALUE = re.compile(
-    r'^[+\-]?(?:0|[1-9][0-9]*)$',
+    r'^[+\-]?(?:0|[1-9][0-9]*)\Z',
     flags=(re.UNICODE))
 
 # Pattern for DSP0004 hexValue
 HEX_VALUE = re.compile(
-    r'^[+\-]?0X(?:[0-9A-F]+)$',
+    r'^[+\-]?0X(?:[0-9A-F]+)\Z',
     flags=(re.UNICODE | re.IGNORECASE))
 
 # Pattern for DSP0004 realValue (extended by INF, -INF, NAN)
